@@ -335,4 +335,43 @@ theorem relPerms_sameSet (a : List Int) :
     sameSet (FW.relatorPermutations a) (relatorSet a) = true :=
   (sameSet_iff _ _).2 (mem_relPerms' a)
 
+/-! ### "rotations of the word and of its inverse": inverting a rotation is rotating the inverse -/
+
+theorem normalized_congr_den {v w : List Int} (h : den v = den w) : normalized v = normalized w :=
+  eq_normalized_of_den (normalized_isReduced v) ((den_normalized v).trans h)
+
+theorem den_invW (a : List Int) : den (invW a) = (den a)⁻¹ := den_invRaw a
+
+theorem length_invW (a : List Int) : (invW a).length = a.length := by simp [invW]
+
+theorem invW_rotate (a : List Int) (m : Nat) :
+    (invW a).rotate m = invW (a.rotate (a.length - m % a.length)) := by
+  unfold invW
+  rw [← List.map_rotate, List.rotate_reverse]
+
+/-- for a reduced word the inverse of the `k`-th rotation is the `(n-k)`-th rotation of the
+    inverse, so `rotInvList` is "all rotations of the word and of its inverse" -/
+theorem inverse_rotated {a : List Int} (hr : isReduced a = true) {k : Nat} (hk : k < a.length) :
+    FW.inverse (FW.rotated a (k : Int))
+      = FW.rotated (FW.inverse a) (((a.length - k : Nat) : Int)) := by
+  have hn : a ≠ [] := by intro e; subst e; simp at hk
+  have hnb : invW a ≠ [] := fun e => hn (invW_eq_nil.1 e)
+  rw [inverse_of_isReduced hr, rotated_natCast hn hk, rotated_of_ne_nil hnb, length_invW]
+  have e1 : (((a.length - k : Nat) : Int) % (a.length : Int)).toNat = (a.length - k) % a.length := by
+    rw [← Int.natCast_mod, Int.toNat_natCast]
+  have hle : (a.length - k) % a.length ≤ (invW a).length := by
+    rw [length_invW]; exact (Nat.mod_lt _ (by omega)).le
+  rw [e1, ← List.rotate_eq_drop_append_take hle, invW_rotate,
+    ← List.rotate_eq_drop_append_take hk.le]
+  have e2 : a.rotate (a.length - (a.length - k) % a.length % a.length) = a.rotate k := by
+    rw [Nat.mod_mod]
+    by_cases h0 : k = 0
+    · subst h0; simp
+    · rw [Nat.mod_eq_of_lt (by omega)]
+      congr 1; omega
+  rw [e2]
+  show normalized (invW (normalized (a.rotate k))) = normalized (invW (a.rotate k))
+  apply normalized_congr_den
+  rw [den_invW, den_invW, den_normalized]
+
 end DSymVerif.FWP
